@@ -151,6 +151,62 @@ func checkC19(e *Env, r *Report) {
 		}
 	}
 	recs = append(recs, map[string]any{"ev": "names", "names": names})
+	// "the flat output directory loses nothing": two real builds, every source profile that the ignore lists of the
+	// distribution do not name must be there
+	if err := e.BuildTools(); err != nil {
+		r.Fatal = err.Error()
+		return
+	}
+	flatCfgs := []Cfg{DefaultCfg("arch"), {"debian", 3, "3.0", "none", false}}
+	if e.Tier == "thorough" {
+		for _, d := range []string{"ubuntu", "opensuse", "whonix"} {
+			flatCfgs = append(flatCfgs, DefaultCfg(d))
+		}
+	}
+	for _, c := range flatCfgs {
+		b := e.RunPrebuild(c, BuildOpts{NoCache: true, Tag: "flat"})
+		if b.Err != nil {
+			r.Fatal = b.Err.Error()
+			return
+		}
+		ignored := map[string]bool{}
+		ignoredDirs := []string{}
+		for _, lst := range []string{"main", c.Dist} {
+			for _, n := range readListFile(filepath.Join(e.Src, "dists", "ignore", lst+".ignore")) {
+				n = strings.TrimSpace(n)
+				if strings.Contains(n, "/") {
+					ignoredDirs = append(ignoredDirs, strings.TrimPrefix(n, "apparmor.d/"))
+				} else {
+					ignored[n] = true
+				}
+			}
+		}
+		lost := []string{}
+		for _, f := range pf {
+			base := filepath.Base(f)
+			skip := ignored[base]
+			for _, d := range ignoredDirs {
+				if f == d || strings.HasPrefix(f, strings.TrimSuffix(d, "/")+"/") {
+					skip = true
+				}
+			}
+			if skip || strings.HasPrefix(f, "groups/_full/") || (c.Ver == "4.1" && configureRemoved[base]) {
+				continue // (the configure step removes the profiles upstreamed in 4.1)
+			}
+			found := false
+			for _, n := range []string{base, base + ".apparmor.d"} {
+				if _, err := os.Stat(filepath.Join(b.Out, "apparmor.d", n)); err == nil {
+					found = true
+				}
+			}
+			if !found {
+				lost = append(lost, f)
+			}
+		}
+		recs = append(recs, map[string]any{"ev": "flat", "cfgkey": c.Key(), "lost": lost})
+		b.Drop()
+	}
+	r.Coverage["flat_output_builds"] = len(flatCfgs)
 	r.Coverage["profile_files"] = len(pf)
 	r.Coverage["abstractions"] = nAbs
 	if len(pf) < 100 {
